@@ -1,6 +1,7 @@
 from __future__ import annotations
 from typing import (
     Generic,
+    Iterable,
     AsyncIterator,
     Optional,
     Callable,
@@ -65,7 +66,7 @@ class _KeyIter(Generic[LT]):
     @classmethod
     async def from_iters(
         cls,
-        iterables: "tuple[AnyIterable[Any], ...]",
+        iterables: "Iterable[AnyIterable[Any]]",
         reverse: bool,
         key: Optional[Callable[[Any], Any]],
     ) -> "AsyncIterator[_KeyIter[Any]]":
@@ -121,14 +122,15 @@ async def merge(
     The ``iterables`` must be pre-sorted in the same order.
     """
     a_key = awaitify(key) if key is not None else None
+    iterators = [aiter(iterable) for iterable in iterables]
+    del iterables
     # sortable iterators with position to ensure stable sort for ties
-    iter_heap: "list[tuple[_KeyIter[Any], int]]" = [
-        (itr, idx)
-        async for idx, itr in a_enumerate(
-            _KeyIter[Any].from_iters(iterables, reverse, a_key)
-        )
-    ]
+    iter_heap: "list[tuple[_KeyIter[Any], int]]" = []
     try:
+        async for idx, itr in a_enumerate(
+            _KeyIter[Any].from_iters(iterators, reverse, a_key)
+        ):
+            iter_heap.append((itr, idx))
         _heapq.heapify(iter_heap)
         # there are at least two iterators that need merging
         while len(iter_heap) > 1:
@@ -147,9 +149,9 @@ async def merge(
             async for item in itr.tail:
                 yield item
     finally:
-        for itr, _ in iter_heap:
-            if isinstance(itr.tail, ACloseable):
-                await itr.tail.aclose()
+        for iterator in iterators:
+            if isinstance(iterator, ACloseable):
+                await iterator.aclose()
 
 
 class ReverseLT(Generic[LT]):
